@@ -443,7 +443,7 @@ OBS_Q = ['valid', 'nxt', 'nxt_on', 'prev', 'nprev', 'first',
 
 def OBLIGATIONS(tier):
     big = tier == 'thorough'
-    t = 1500 if big else 150
+    t = 1500 if big else 360
     steps = (1, 2, 3, 4, 5) if big else (2, 3)
     if big:
         B = {'a': [-12, 12], 'n': [0, 6], 'q': [-40, 80]}
